@@ -394,6 +394,8 @@ func coqPTs(n *Node) string {
 			op = "(TMutErr " + CoqZ(p.N) + " " + CoqStr(p.Key) + " " + CoqStr(p.S) + ")"
 		case "issue":
 			op = "TIssue"
+		case "bare_issue":
+			op = "TIssueBare"
 		case "wrap_issue":
 			op = "(TErr \"delegated check failed\")"
 		case "setfield":
